@@ -2,7 +2,7 @@
 import importlib
 
 CONTRACT_MODULES = ["contracts.c_bip32", "contracts.c_keys", "contracts.c_wallet_utils", "contracts.c_base_wallet",
-                    "contracts.c_bip85", "contracts.c_paper_wallet", "contracts.c_main", "contracts.c_script", "contracts.c_base58", "contracts.c_bip39"]
+                    "contracts.c_bip85", "contracts.c_paper_wallet", "contracts.c_main", "contracts.c_script", "contracts.c_base58", "contracts.c_bip39", "contracts.c_helper", "contracts.c_ripemd"]
 
 COMMON_TB = [
     "H1-H4: hashlib/hmac/pbkdf2/unicodedata are deterministic total functions with the standard output lengths (uninterpreted, same symbols in code and spec)",
